@@ -112,6 +112,7 @@ func VerifInstr() {
 // VerifInstrAfter: the same, but the scheduler still holds what the previous instruction left behind, chosen as the
 // one leftover a decode cache could confuse with this instruction: the same opcode byte under the other prefix.
 // (VerifInstr starts from the empty scheduler of a fresh CPU.) An instruction must not depend on its predecessor.
+// In addition another, older CPU instance with arbitrary state exists; the instruction must not depend on it either.
 func VerifInstrAfter() {
 	verifInstr(false, true)
 }
@@ -125,6 +126,11 @@ func VerifInstrHaltBug() {
 func verifInstr(haltbug bool, after bool) {
 	op := uint8(vCfg("op"))
 	cb := vCfg("cb") != 0
+	if after {
+		// an older instance with unrelated register and flag values is alive in the process (its state must be irrelevant)
+		decoy := newVerifMachine()
+		decoy.havocNamed("decoy.")
+	}
 	vm := newVerifMachine()
 	vm.havocAtBoundary()
 	if after {
